@@ -49,6 +49,9 @@ func c08BiasJSON(e c08Entry) M {
 		m = M{"name": "criteriaOmission", "props": M{"ratio": 0.34}}
 	case 2:
 		m = M{"name": "preferenceReversal", "props": M{"ratio": 0.34}}
+	case 6:
+		// a bias that fires and, by its own parameters, changes nothing (fatigue ratio 0): fired all the same
+		m = M{"name": "fatigue", "props": M{"function": "const", "params": M{"value": 0.0}, "randomSeed": 1}}
 	case 4:
 		m = M{"name": " ", "props": M{}}
 	case 5:
@@ -197,7 +200,7 @@ func c08CheckList(c *Case, list []c08Entry, draws []float64) (*c08Obs, []Violati
 	if len(o.resp.Biases) != len(enabled) {
 		return o, []Violation{viol(c, "C08/entry-count", "response has %d bias entries for %d enabled biases", len(o.resp.Biases), len(enabled))}
 	}
-	names := []string{"fatigue", "criteriaOmission", "preferenceReversal", "noSuchBias", " ", ""}
+	names := []string{"fatigue", "criteriaOmission", "preferenceReversal", "noSuchBias", " ", "", "fatigue"}
 	for i, x := range enabled {
 		b := o.resp.Biases[i]
 		wantP := 1.0
@@ -376,6 +379,14 @@ func c08Run(s *Shard) {
 			for _, c := range menu {
 				lists = append(lists, []c08Entry{a, b, c})
 			}
+		}
+	}
+	// a firing bias whose effect is nil (fatigue ratio 0), alone and next to ordinary entries
+	for _, p6 := range []int{0, 1, 2, 3} {
+		z := c08Entry{6, false, p6}
+		lists = append(lists, []c08Entry{z}, []c08Entry{z, z})
+		for _, o := range []c08Entry{{0, false, 0}, {1, false, 2}, {2, false, 3}} {
+			lists = append(lists, []c08Entry{z, o}, []c08Entry{o, z}, []c08Entry{o, z, o})
 		}
 	}
 	s.Bounds["lists"] = len(lists)
